@@ -18,6 +18,8 @@ structure HistSt where
   c01 : Option String := none
   c04 : Option String := none
   c13 : Option String := none
+  c17 : Option String := none
+  c15 : Option String := none
   ops : Nat := 0
   /-- executions per function over the whole history, and the first result of each -/
   execs : List ExecEv := []
@@ -30,8 +32,11 @@ def runHist (fl : Flags) (b : Block) : Res :=
   | _, none, _ => { conform := some "no_target", propNA := true }
   | _, _, .nilArg => { conform := some "builder_nilarg", propNA := true }
   | _, _, .optErr _ => { conform := some "builder_opterr", propNA := true }
-  | none, some target, .ok bld =>
-  let cgrCall := callGraph fl.var sc.env bld sc.fn target false none
+  | none, some target, .ok bld0 =>
+  -- converter generators: the builder is extended by what they return (a failing generator makes every
+  -- operation on the target fail; such histories are judged operation by operation below)
+  let bld := (expandFor sc bld0 target).getD bld0
+  let genErr := (expandFor sc bld0 target).isNone
   let cgrRedef := callGraph fl.var sc.env bld sc.fn target true none
   let fx := mkFacts sc bld target
   let runs := splitRunsWith ["rdres", "rdexecs", "hop"] b.lines
@@ -50,7 +55,8 @@ def runHist (fl : Flags) (b : Block) : Res :=
                          trackReaching := fl.trackReaching, takeValuedNamed := fl.takeValuedNamed,
                          skipRecordsInput := fl.skipRecordsInput, hopCopies := fl.hopCopies }
       let o := redefine ctx cgrRedef target none (fuelFor sc) { initSt cgrRedef.cg h.memo items with count := h.count } fl.dupIsError
-      let c := if showRedef o = showImplRedef rdres then none
+      let c := if genErr then (if rdres = ["err", "generr"] then none else some s!"op{h.ops}_failing_generator_expected_error_from_redefine")
+               else if showRedef o = showImplRedef rdres then none
                else some s!"op{h.ops}_redefine_model=[{noSpace (showRedef o)}]_impl=[{noSpace (showImplRedef rdres)}]"
       { h with conform := h.conform.or c,
                c09 := h.c09.or (if rdexecs = 0 then none else some s!"op{h.ops}_redefine_executed_{rdexecs}_user_function_bodies"),
@@ -63,7 +69,12 @@ def runHist (fl : Flags) (b : Block) : Res :=
       let callOpts := ((List.range sc.opts.length).zip sc.opts).filter (fun p => p.1 ≥ sc.defaults ∧ !omitL.contains p.1) |>.map (·.2)
       let defs := if tfid = 0 then sc.opts.take sc.defaults else []
       match sc.fn tfid, buildFor defs callOpts with
-      | some tgt, .ok bld' =>
+      | some tgt, .ok bld1 =>
+        match expandFor sc bld1 tgt with
+        | none =>
+          { h with conform := h.conform.or (if resOf evs = ["err", "generr"] then none else some s!"op{h.ops}_failing_generator_expected_error"),
+                   c06 := h.c06.or (if isPanicRes (resOf evs) then some "panic_when_a_converter_generator_reports_an_error" else none) }
+        | some bld' =>
         let cgr' := callGraph fl.var sc.env bld' sc.fn tgt false none
         let fx' := mkFacts sc bld' tgt
         let ro := replayRun fl sc bld' cgr' tgt evs false false h.memo h.count
@@ -85,6 +96,18 @@ def runHist (fl : Flags) (b : Block) : Res :=
                  c06 := h.c06.or (get "C06"),
                  c13 := h.c13.or (get "C13"),
                  c11 := h.c11.or c11d,
+                 -- C15: a function assembled with BuildFunc behaves like an ordinary function of its signature — the
+                 -- model knows no difference, so a divergence in an operation that executed one is reported under C15
+                 c15 := h.c15.or (match ro.conform with
+                   | some m => if ex.any (fun e => (sc.fns.find? (fun f => f.desc.id == e.fid)).any (fun f => f.form == "built"))
+                               then some s!"op{h.ops}_built_function_differs_from_an_ordinary_one:{m}" else none
+                   | none => none),
+                 -- C17: when resolution itself fails (the model, replaying this very trace, ends unsatisfied) the
+                 -- result must have length 0 and carry an error — also for a run-once target that already has a result
+                 c17 := h.c17.or (match ro.outcome, (resOf evs).head? with
+                   | .unsat _ _, some "ok" => some s!"op{h.ops}_resolution_fails_but_a_result_of_length>0_without_error_was_returned"
+                   | .missingArg, some "ok" => some s!"op{h.ops}_resolution_fails_but_a_result_without_error_was_returned"
+                   | _, _ => none),
                  -- a memoised error of a run-once function is reported without any execution in this call
                  c04 := h.c04.or ((get "C04").filter (fun m => m != "error_reported_but_no_function_failed" || h.memo.all (fun mm => mm.2.res.err.isNone))),
                  execs := h.execs ++ ex }
@@ -97,7 +120,7 @@ def runHist (fl : Flags) (b : Block) : Res :=
   let nOnceUsed := (onceIds.filter (fun fid => st.execs.any (fun e => e.fid == fid))).length
   { conform := st.conform, propNA := true,
     props := [("C09", verdictStr st.c09), ("C11", verdictStr c11), ("C06", verdictStr st.c06), ("C04", verdictStr st.c04),
-              ("C13", verdictStr st.c13), ("C17", verdictStr st.c11)],
+              ("C13", verdictStr st.c13), ("C17", verdictStr (st.c17.or st.c11)), ("C15", verdictStr st.c15)],
     stats := [s!"ops={st.ops}", s!"execs={st.execs.length}", s!"once={onceIds.length}", s!"onceused={nOnceUsed}",
               s!"convs={fx.convs.length}", s!"outcome=hist"] }
 
